@@ -50,10 +50,25 @@ def main():
             finally:
                 sh(f"git apply -R {patch}", REPO)
             viol = [l for l in r.stdout.splitlines() if l.startswith("VIOLATION")]
+            neutral = None
+            demo = f"{VERIF}/seeded/{sid}/demo.py"
+            if not viol and os.path.exists(demo):
+                # not reported: does the change still break anything?  (a later
+                # fix: commit can neutralise a seeded change) - its own demo decides
+                sh(f"git apply {patch}", REPO)
+                try:
+                    dr = subprocess.run(["/venv/bin/python", demo], capture_output=True, text=True,
+                                        env=dict(os.environ, PYTHONPATH=f"{REPO}/src",
+                                                 DECIMALFP_FORCE_PYTHON_IMPL="1"))
+                    neutral = dr.returncode == 0
+                finally:
+                    sh(f"git apply -R {patch}", REPO)
             res = {"check": prop, "exit": r.returncode, "violation": bool(viol),
                    "failing_input_found": bool(viol) and not any(
                        "no-failing-input-found" in l for l in viol),
                    "seconds": round(time.time() - t0)}
+            if neutral is not None:
+                res["demo_passes_with_change"] = neutral
             matrix[sid] = res
             if os.path.exists(mp):
                 m = json.load(open(mp))
